@@ -881,7 +881,7 @@ func (s *c06S) exec(id int64, del bool, idx int64, nm string, ctx, dbFail bool, 
 		s.racing++
 		w.St.Class("exec:with-racing-read")
 		if sv := w.Env.Lookup(w.Nodes, s.pk[id]); sv.Present && !failed && !w.Dirty[s.pk[id]] {
-			w.Fail("%s(%s): a cached read of p%d that completed before the database applied the write left %q in the cache after %s returned; the keys must be invalidated after the write (ExecCtx: run the write, then delete the keys), otherwise the old state stays cached for a whole expiry",
+			w.Fail("%s(%s): a cached read of p%d that completed before the database applied the write left %q in the cache after %s returned: the invalidation missed it (it ran before the write instead of after it - 'ExecCtx: run DB write, then delete keys' - or not where the key is stored), so the old state stays cached for a whole expiry",
 				name, what, id, sv.Raw, name)
 		}
 	}
